@@ -143,6 +143,47 @@ def make_rundir(spec, root=None):
     return d
 
 
+ORDERP_ROUND = '''"""Order parameter for the TurtleMD double well: x of particle 0, rounded to the six decimals of order.txt."""
+from infretis.classes.orderparameter import OrderParameter
+
+
+class PositionXRounded(OrderParameter):
+    def __init__(self, index=(0, 0), periodic=False):
+        super().__init__(description="x rounded to 6 decimals", velocity=False)
+        self.index = index
+
+    def calculate(self, system):
+        return [round(float(system.pos[self.index[0]][self.index[1]]), 6)]
+'''
+
+
+def make_rundir_turtlemd(spec):
+    """Run directory for the TurtleMD double-well example (8 interfaces, initial paths from the repository's examples)."""
+    import tomli
+    import tomli_w
+
+    repo = os.environ.get("VERIF_REPO", "/repo")
+    ex = os.path.join(repo, "examples", "turtlemd", "double_well")
+    d = isolate.mkscratch("tmd_")
+    shutil.copytree(os.path.join(ex, "load_copy"), os.path.join(d, "load"))
+    with open(os.path.join(repo, "test", "simulations", "data", "wf.toml"), "rb") as fh:
+        cfg = tomli.load(fh)
+    cfg["runner"] = {"workers": 1}
+    cfg["simulation"]["steps"] = spec["steps"]
+    cfg["simulation"]["seed"] = spec["seed"]
+    cfg["simulation"]["shooting_moves"] = spec["moves"]
+    cfg["simulation"]["tis_set"]["allowmaxlength"] = spec["allowmaxlength"]
+    cfg["simulation"]["tis_set"]["n_jumps"] = spec["n_jumps"]
+    cfg["simulation"]["tis_set"]["maxlength"] = spec["maxlength"]
+    cfg["orderparameter"] = {"class": "PositionXRounded", "module": "orderp_round.py", "index": [0, 0], "periodic": False}
+    cfg["output"].update({"screen": 0, "pattern": False, "delete_old": spec["delete_old"], "delete_old_all": spec["delete_old_all"]})
+    with open(os.path.join(d, "orderp_round.py"), "w") as fh:
+        fh.write(ORDERP_ROUND)
+    with open(os.path.join(d, "infretis.toml"), "wb") as fh:
+        tomli_w.dump(cfg, fh)
+    return d
+
+
 # ----------------------------------------------------------------------------
 # schedule policies
 # ----------------------------------------------------------------------------
@@ -804,7 +845,7 @@ def run_history(spec, segments, flags, keep=False, timeout=300.0, rundir=None):
     if rundir is None:
         spec = dict(spec)
         spec["steps"] = segments[0]["steps"]  # the first lifetime starts from infretis.toml
-    d = rundir or make_rundir(spec)
+    d = rundir or (make_rundir_turtlemd(spec) if spec.get("engine") == "turtlemd" else make_rundir(spec))
     carry = {}
     results, viol = [], []
     try:
